@@ -667,7 +667,7 @@ func genLawTest(p *Pkg, targets []lawTarget) (src string, err error) {
 		var gargs []string
 		if len(d.Params) > 0 {
 			used := map[string]bool{}
-			for _, u := range d.usedParams() {
+			for _, u := range d.usedParamsFor(tc) {
 				used[u] = true
 			}
 			pool := []string{"int", "string", "int64", "uint8"}
@@ -707,7 +707,7 @@ func genLawTest(p *Pkg, targets []lawTarget) (src string, err error) {
 		classLit := "[]string{" + strings.Join(cl, ", ") + "}"
 		fn := fmt.Sprintf("law%d", i+1)
 		calls = append(calls, fn)
-		fmt.Fprintf(&laws, "// %s[%s] (%s)\nfunc %s() {\n\tc08begin(%q, %q)\n\tdefer c08end(%q, %q)\n", tcName[tc], T, flagText(x), fn, tcName[tc], typ, tcName[tc], typ)
+		fmt.Fprintf(&laws, "// %s[%s] (%s)\nfunc %s() {\n\tif !c08begin(%q, %q) {\n\t\treturn\n\t}\n\tdefer c08end(%q, %q)\n", tcName[tc], T, flagText(x), fn, tcName[tc], typ, tcName[tc], typ)
 		iface := fmt.Sprintf("fp.%s[%s]", tcName[tc], T)
 		getInst := func(v string) {
 			switch {
@@ -742,7 +742,12 @@ func genLawTest(p *Pkg, targets []lawTarget) (src string, err error) {
 			}
 			fmt.Fprintf(&laws, "\trunHash(%q, inst, again, pool, varied, %s, %s)\n", typ, classLit, g.refTop(s, t))
 		case Ord:
-			fmt.Fprintf(&laws, "\trunOrd(%q, inst, pool, varied, %s, %s)\n", typ, classLit, g.refTop(s, t))
+			tk := "nil"
+			if p.hasOrdTick() {
+				n := int64(len(classes))
+				tk = fmt.Sprintf("&c08tick{ticks: &XOrdTicks, budget: &XOrdBudget, per: %d}", 50000+200*n*n)
+			}
+			fmt.Fprintf(&laws, "\trunOrd(%q, inst, pool, varied, %s, %s, %s)\n", typ, classLit, g.refTop(s, t), tk)
 		case Monoid:
 			c, z := g.refTopMonoid(s, t)
 			fmt.Fprintf(&laws, "\trunMonoid(%q, inst, pool, varied, %s, %s, %s, %s)\n", typ, classLit, c, z, g.eqv(sem{tc: -1}, t))
